@@ -150,11 +150,11 @@ func oracleStatus(name string, spec kit.ErrSpec, got kit.ErrObs, stream bool) st
 		if uint32(st.Code()) != spec.Code {
 			return fmt.Sprintf("%s: code %d, handler returned %d", name, st.Code(), spec.Code)
 		}
-		if spec.Kind == "status" && st.Message() != spec.Msg {
-			return fmt.Sprintf("%s: message %q, handler returned %q", name, trunc(st.Message()), trunc(spec.Msg))
+		if spec.Kind == "status" && st.Message() != spec.Message() {
+			return fmt.Sprintf("%s: message %q, handler returned %q", name, trunc(st.Message()), trunc(spec.Message()))
 		}
-		if spec.Kind == "wrapped" && !strings.Contains(st.Message(), spec.Msg) {
-			return fmt.Sprintf("%s: message %q does not contain %q", name, trunc(st.Message()), trunc(spec.Msg))
+		if spec.Kind == "wrapped" && !strings.Contains(st.Message(), spec.Message()) {
+			return fmt.Sprintf("%s: message %q does not contain %q", name, trunc(st.Message()), trunc(spec.Message()))
 		}
 		gd, wd := st.Proto().GetDetails(), wst.Proto().GetDetails()
 		if len(gd) != len(wd) {
